@@ -129,6 +129,43 @@ func owCheck(c *Ctx, k *owKeyFile, path, prior string, unlock bool) bool {
 	return ok
 }
 
+// owRescan: the key file at the path was replaced on disk by `k` (over `former`) while the Manager `m` was running; after the
+// Manager has re-scanned its directory (Start again) it must answer for the file that IS there: the password of `k` opens it
+// and gives k's entropy and k's index-0 address, the former file's password does not.
+func owRescan(c *Ctx, m *wallet.Manager, k, former *owKeyFile, what string) {
+	defer safely(func() { m.Stop() })
+	name := "wallet.json"
+	var serr error
+	if p := safely(func() { serr = m.Start() }); p != "" || serr != nil {
+		c.Fail("C19 overwrite: second Manager.Start (re-scan) over %s: %v %s", what, serr, p)
+		return
+	}
+	c.Hit("overwrite-manager-rescan")
+	var ks *wallet.KeyStore
+	var err error
+	if p := safely(func() { ks, err = m.GetKeyFileAndDecrypt(name, k.pw) }); p != "" || err != nil || ks == nil {
+		c.Fail("C19 overwrite: after a re-scan the Manager does not decrypt the key file on disk (written over %s) with ITS password: %v %s", what, err, p)
+	} else if !bytes.Equal(ks.Entropy, k.entropy) || ks.BaseAddress != k.ks.BaseAddress {
+		c.Fail("C19 overwrite: after a re-scan the Manager decrypts the key file on disk (written over %s) to entropy %x / address %v, it was created from %x / %v", what, ks.Entropy, ks.BaseAddress, k.entropy, k.ks.BaseAddress)
+	}
+	if former.pw != k.pw {
+		var ks2 *wallet.KeyStore
+		err = nil
+		if p := safely(func() { ks2, err = m.GetKeyFileAndDecrypt(name, former.pw) }); p == "" && err == nil && ks2 != nil {
+			c.Fail("C19 overwrite: after a re-scan the Manager still opens the path with the password of the REPLACED key file (%s) and gives entropy %x; the file on disk was created from %x", what, ks2.Entropy, k.entropy)
+		}
+	}
+	var uerr error
+	if p := safely(func() { uerr = m.Unlock(name, k.pw) }); p != "" || uerr != nil {
+		c.Fail("C19 overwrite: after a re-scan Manager.Unlock refuses the password of the key file on disk (written over %s): %v %s", what, uerr, p)
+	} else if ks3, gerr := m.GetKeyStore(name); gerr != nil || ks3 == nil || !bytes.Equal(ks3.Entropy, k.entropy) {
+		c.Fail("C19 overwrite: after a re-scan the key store the Manager unlocks is not the one of the key file on disk (written over %s) (%v)", what, gerr)
+	}
+	if kf, gerr := m.GetKeyFile(name); gerr != nil || kf == nil || kf.BaseAddress != k.ks.BaseAddress {
+		c.Fail("C19 overwrite: after a re-scan the Manager's key file for the path does not record the index-0 address of the file on disk (written over %s)", what)
+	}
+}
+
 func owSerial(kf *wallet.KeyFile) []byte {
 	b, _ := json.MarshalIndent(kf, "", "    ")
 	return b
@@ -198,9 +235,24 @@ func walletOverwrite(c *Ctx, dir string) {
 				c.Fail("C19 overwrite: cannot prepare %s: %v", pr.name, err)
 				continue
 			}
+			// a Manager that is already running on the directory when the key file is replaced (wallet restored / password
+			// changed while the node runs) and re-scans it by a second Start
+			var live *wallet.Manager
+			if pi < len(sizes) && (pi+n)%2 == 0 {
+				live = wallet.New(&wallet.Config{WalletDir: sub})
+				if err := live.Start(); err != nil {
+					c.Fail("C19 overwrite: Manager.Start: %v", err)
+					live = nil
+				} else if _, err := live.GetKeyFile("wallet.json"); err != nil {
+					c.Fail("C19 overwrite: a Manager started on the directory does not list the former key file: %v", err)
+				}
+			}
 			if err := newKf[s].writeTo(path); err != nil {
 				c.Fail("C19 overwrite: KeyFile.Write over %s failed: %v", pr.name, err)
 				continue
+			}
+			if live != nil {
+				owRescan(c, live, newKf[s], oldKf[sizes[pi]], pr.name)
 			}
 			n++
 			rel := "no-keyfile"
